@@ -238,7 +238,10 @@ class ObjectStream(Generic[T]):
         base_ast = self.query_ast
         if len(q_metadata) > 0:
             new_self = self.clone_with_new_ast(copy.copy(base_ast), self.item_type)
-            new_self.query_ast._q_metadata = q_metadata  # type: ignore
+            # The copied node may already carry query metadata - keep it, adding the new items.
+            all_metadata = dict(getattr(base_ast, "_q_metadata", {}))
+            all_metadata.update(q_metadata)
+            new_self.query_ast._q_metadata = all_metadata  # type: ignore
             return new_self
         else:
             return self.clone_with_new_ast(base_ast, self.item_type)
